@@ -23,6 +23,7 @@ def plan(tier, seed):
     shards = [{"kind": "lib", "seed": seed, "shard": i, "n": 300} for i in range(n)]
     k = 16 if tier == "quick" else 200
     shards += [{"kind": "cli", "seed": seed, "shard": i, "n": 24} for i in range(k)]
+    shards += [{"kind": "mcp", "seed": seed, "shard": i, "n": 40} for i in range(2 if tier == "quick" else 40)]
     return shards
 
 
@@ -281,6 +282,11 @@ def run_cli(desc):
             if r["new_files"]:
                 bad.append(f"files created: {r['new_files']}")
             named = [(tk, dd) for tk, dd in unc.items() if tk in r["stderr"] and iso(dd) in r["stderr"]]
+            if not bad and not named and residue_class(txs, r["stderr"]).startswith("holding-short-by-decimal-residue"):
+                viols.append({"clause": "covered-refused", "detail": "cli: covered prefix refused: " + r["stderr"][:200],
+                              "signature": "covered-refused:" + residue_class(txs, r["stderr"]),
+                              "case": {"op": "cli", "txs": txs, "fmt": fmt, "use_output": use_output}})
+                continue
             if not bad and not named:
                 bad.append("stderr does not name security and date: " + r["stderr"][:200])
             if bad:
@@ -306,8 +312,68 @@ def run_cli(desc):
             "violations": viols, "samples": samples}
 
 
+def run_mcp(desc):
+    """Protocol boundary: an uncovered ledger gets a JSON-RPC error (never a result, partial or otherwise) from
+    calculate_report and explain_matching; a covered one gets a result."""
+    import json
+    from ..mcpdrv import Session, call, check_history
+    rng = rng_for(PROP, desc["seed"], "mcp", desc["shard"])
+    cnt = Counter()
+    viols = []
+    hashes = set()
+    sess = Session()
+    reqs = []
+    for i in range(desc["n"]):
+        txs, cls = gen_case(rng)
+        unc = hmrc.evaluate(txs)["uncovered"]
+        tool = rng.choice(["calculate_report", "calculate_report", "explain_matching"])
+        args = {"transactions": render_dsl(txs)}
+        if tool == "explain_matching":
+            sells = [t for t in txs if t["kind"] == "SELL"]
+            if not sells:
+                tool = "calculate_report"
+            else:
+                s_ = rng.choice(sells)
+                args.update(disposal_date=s_["date"], ticker=s_["ticker"])
+        reqs.append((call(i + 1, tool, args), txs, unc, tool))
+    for j in range(0, len(reqs), 8):
+        sess.send([r for r, _, _, _ in reqs[j:j + 8]])
+    sess.wait_for([r["id"] for r, _, _, _ in reqs], 120)
+    end = sess.finish()
+    hv, stats, resp = check_history(sess, end)
+    for name, detail in hv:
+        viols.append({"clause": "mcp-" + name, "signature": "mcp-" + name, "detail": detail, "case": {"op": "mcp"}})
+    for r, txs, unc, tool in reqs:
+        a = resp.get(Session.idkey(r["id"]))
+        if a is None:
+            continue
+        hashes.add(sha([txs, tool])[:16])
+        is_result = "result" in a and not a["result"].get("isError")
+        if unc:
+            cnt["mcp_uncovered"] += 1
+            if is_result:
+                viols.append({"clause": "mcp-uncovered-answered-with-result", "signature": "mcp-uncovered-answered-with-result:" + tool,
+                              "detail": json.dumps(a)[:200], "case": {"op": "calc", "txs": txs, "cls": "mcp"}})
+            else:
+                msg = a.get("error", {}).get("message", "")
+                if not any(tk in msg and iso(dd) in msg for tk, dd in unc.items()):
+                    if residue_class(txs, msg).startswith("holding-short-by-decimal-residue"):
+                        continue
+                    viols.append({"clause": "mcp-error-does-not-name-security-and-date", "signature": "mcp-error-does-not-name-security-and-date",
+                                  "detail": msg[:200], "case": {"op": "calc", "txs": txs, "cls": "mcp"}})
+                else:
+                    cnt["mcp_uncovered_error_names_security_and_date"] += 1
+        else:
+            cnt["mcp_covered"] += 1
+            if not is_result and tool == "calculate_report":
+                msg = a.get("error", {}).get("message", "")
+                viols.append({"clause": "covered-refused", "signature": "covered-refused:" + residue_class(txs, msg.split("\n\n")[1] if "\n\n" in msg else msg),
+                              "detail": "mcp: " + msg[:200], "case": {"op": "calc", "txs": txs, "cls": "mcp"}})
+    return {"evaluations": len(reqs), "nontrivial_hashes": hashes, "counters": cnt, "violations": viols[:20], "samples": []}
+
+
 def run_shard(desc):
-    return run_lib(desc) if desc["kind"] == "lib" else run_cli(desc)
+    return {"lib": run_lib, "cli": run_cli, "mcp": run_mcp}[desc["kind"]](desc)
 
 
 def replay(case):
@@ -333,7 +399,8 @@ def replay(case):
 
 THRESHOLDS = {"uncovered_truncated": 100, "uncovered_duplicated_sale": 100,
               "uncovered_companion_matched_to_repurchase": 100, "uncovered_oversell_after_split": 100,
-              "uncovered_epsilon_over": 100, "covered_sells_exact_holding": 500, "cli_uncovered": 30}
+              "uncovered_epsilon_over": 100, "covered_sells_exact_holding": 500, "cli_uncovered": 30,
+              "mcp_uncovered": 20}
 RULE = ("covered shape-directed ledgers and uncovered mutants (truncated history, duplicated sale rows, sale raised "
         "above the holding by a tick, companion sale matched to a later repurchase, oversell appearing only after a "
         "split/unsplit); coverage decided by the model predicate alone; library boundary plus real CLI runs in all "
